@@ -50,7 +50,7 @@ use std::cmp::Ordering;
 """
 
 KINDS = ["int", "bigint", "float", "byte"]          # kind codes 0..3
-ARITH = ["add", "sub", "mul", "div", "rem"]
+ARITH = ["add", "sub"]       # `* / %`: SAT bit-blasting of 32/128-bit multipliers/dividers does not finish -> unit c05_muldiv (V-t)
 BITS = ["bitand", "bitor", "bitxor"]
 SHIFTS = ["shl", "shr"]
 CMPS = ["lt", "le", "gt", "ge"]
